@@ -51,7 +51,8 @@ func selectTransactionsFromBunches(session SelectionSession, bunches []bunchOfTr
 		item := heap.Pop(transactionsHeap).(*transactionsHeapItem)
 		gasLimit := item.currentTransaction.Tx.GetGasLimit()
 
-		if accumulatedGas+gasLimit > gasRequested {
+		// Note: "accumulatedGas <= gasRequested" always holds, thus the subtraction cannot underflow (while the addition could overflow).
+		if gasLimit > gasRequested-accumulatedGas {
 			break
 		}
 		if len(selectedTransactions) >= maxNum {
